@@ -3,6 +3,9 @@
  * (it records its code and ends the path), setjmp is handled per harness, set.c through the
  * set contract (spec/set_model.h, disposal callback conf_object_cleanup). */
 #include "vh.h"
+#ifdef VERIF_NATIVE
+#define __CPROVER_assume(c) do { if (!(c)) exit(77); } while (0)
+#endif
 #include <setjmp.h>
 #include "src/config.c"
 #define SET_MODEL_CLEANUP_FN conf_object_cleanup
